@@ -1,12 +1,12 @@
 ENGINE = {'name': 'conn',
  'pkg': 'layer4',
- 'files': ['layer4/c01_conn_test.go'],
- 'run': '^TestVerifC01Conn$',
+ 'files': ['layer4/c01_conn_test.go', 'layer4/c01_listener_test.go'],
+ 'run': '^TestVerifC01(Conn|Listener)$',
  'corr': 'C01Corr',
  'case_type': 'c01case',
  'check': 'check',
  'imports': ['From L4.model Require Import Conn.'],
- 'n_quick': 400,
+ 'n_quick': 300,
  'n_thorough': 6000,
  'shard': 25,
  'timeout': 900,
@@ -17,7 +17,7 @@ ENGINE = {'name': 'conn',
          'bytes biased to 2048/4096/8192 +-1, optionally a preloaded prefix; segmentations {1 byte, random, 2048, all at once, mixed} with '
          'occasional deadline errors; after every operation result bytes, error enum, len(buf), cap(buf), offset, frozenOffset, matching and '
          'bytes pulled from the socket are compared with the model, and at the end the connection is drained and compared; a case is '
-         'non-trivial when the buffer was non-empty and at least one read happened in matching mode; distinct = distinct case terms',
+         'non-trivial when the buffer was non-empty and at least one read happened in matching mode; distinct = distinct case terms; plus (TestVerifC01Listener, oracle only) 100 connections through 7 wrapped listeners (ListenerWrapper.WrapListener, routes whose matcher needs 0..5000 bytes and answers no, or matches and consumes 7/100 bytes), sequential and overlapping, all sharing bufPool: the bytes read from the connection returned by Accept must be the unconsumed stream (keys C01:listener:*)',
  'trusted_base': ['bufio.Reader, io.TeeReader (Go standard library) are run for real in the lock-step sequences and are modelled in Conn.v',
                   'the scripted socket of the harness implements the segmentation oracle (net_read)'],
  'modelled': ['layer4/connection.go: Read, prefetch (in-place and pooled-tmp branches, capacity chosen by append as an oracle value), freeze, '
